@@ -178,6 +178,9 @@ def judge(cases, use_model, positions=True):
     for c in cases:
         if c.status != "OK":
             probs.append(("run", c.status.lower(), c.ctx, c.actual[:300]))
+    for c in cases:
+        if c.status == "OK" and not use_model and (c.actual.startswith("CE ") or c.actual.startswith("PE ")):
+            probs.append(("run", "compile-error", c.ctx, c.actual[:300]))
     if probs:
         return probs
     if use_model:
@@ -222,22 +225,17 @@ def run_cases(all_cases, chunk=4000):
 
 
 # --------------------------------------------------------------------------
-# worker: a slice of one family
+# workers.  One *step* = the expressions of one family of exactly one size (or one explicit product);
+# the parent generates the list, then forks the pool, so the workers share it.
 
-_FAM = {}
-
-
-def _family_exprs(name, tier):
-    key = (name, tier)
-    if key not in _FAM:
-        _FAM[key] = families.FAMILIES[name].exprs(tier)
-    return _FAM[key]
+_CUR = {"fam": None, "tier": None, "exprs": []}
 
 
 def work(task):
-    fam, tier, lo, hi = task
+    lo, hi = task
+    fam, tier = _CUR["fam"], _CUR["tier"]
     F = families.FAMILIES[fam]
-    exprs = _family_exprs(fam, tier)[lo:hi]
+    exprs = _CUR["exprs"][lo:hi]
     ctxs = F.contexts(tier)
     built = []
     skipped = 0
@@ -251,9 +249,11 @@ def work(task):
         built.append((lo + idx, E, cases))
     flat = [c for _, _, cs in built for c in cs]
     run_cases(flat, chunk=1 if F.keep_far == "keys-odd-args" else 4000)
-    res = dict(fam=fam, exprs=len(built), skipped=skipped, programs=len(flat), failing=[], outcomes=set(),
+    res = dict(exprs=len(built), skipped=skipped, programs=len(flat), failing=[], outcomes=set(),
                steps=sum(c.steps for c in flat), errors=0, farskip=farskip)
     for idx, E, cases in built:
+        if os.environ.get("C02_DUMP"):
+            sys.stderr.write("DUMP %s\t%s\t%s\n" % (fam, model.rtext(E), cases[0].actual))
         probs = judge(cases, F.use_model)
         h = hashlib.blake2b(cases[0].actual.encode("utf-8", "surrogateescape"), digest_size=8).digest()
         res["outcomes"].add(h)
@@ -299,24 +299,29 @@ for _i in range(len(_BASE)):
 VARIANTS.append(("+".join(b[0] for b in _BASE), _compose(*[b[1] for b in _BASE])))
 
 
-def classify_work(task):
+def classify_work(items):
     """For failing expressions: re-run them with the known-defect patterns neutralised by a
-    meaning-preserving rewrite; the first rewrite that makes every context agree with the model
-    and the law names the root cause.  -> [(idx, sig or None)]"""
-    fam, tier, items = task
+    meaning-preserving rewrite; the first rewrite (singles, then pairs, then all) that makes every
+    context agree with the model and the law names the root cause(s).  -> [(idx, sig or None)]"""
+    fam, tier = _CUR["fam"], _CUR["tier"]
     F = families.FAMILIES[fam]
     ctxs = F.contexts(tier)
-    exprs = _family_exprs(fam, tier)
+    exprs = _CUR["exprs"]
     plans = []
     for idx, probs in items:
         E = exprs[idx]
         built = []
-        for sig, vf in VARIANTS:
-            if all(model.rtext(vf(E, c)) == model.rtext(E) for c in ctxs):
-                continue
-            cs = build_cases(E, ctxs, F.use_model, F.keep_far, variant=vf)
-            if cs:
-                built.append((sig, cs))
+        if type(E) is not model.Raw:
+            base = [model.rtext(E)] * len(ctxs)
+            seen = [base]
+            for sig, vf in VARIANTS:
+                texts = [model.rtext(vf(E, c)) for c in ctxs]
+                if texts in seen:
+                    continue
+                seen.append(texts)
+                cs = build_cases(E, ctxs, F.use_model, F.keep_far, variant=vf)
+                if cs:
+                    built.append((sig, cs))
         plans.append((idx, built))
     flat = [c for _, built in plans for _, cs in built for c in cs]
     if flat:
@@ -334,9 +339,8 @@ def classify_work(task):
 
 # --------------------------------------------------------------------------
 
-def replay_for(fam, tier, idx, probs):
+def replay_for(fam, E, probs):
     F = families.FAMILIES[fam]
-    E = _family_exprs(fam, tier)[idx]
     oracle, comp, ctx, detail = probs[0]
     text, forms, pos, off = gen.build_program(ctx, E)
     exp = None
@@ -372,93 +376,118 @@ def main():
     chk.assume("the Janet parser, `compile`, fibers, debug/stack and the canonical printer of the driver are trusted "
                "only as far as they transport the observation; the reference evaluator (model.py) is the oracle")
     chk.assume("sizes beyond the stated bound and constructs outside each family's grammar are not covered")
+    chk.assume("cases that exercise a known defect able to corrupt the process or to loop for ever (far-upvalue, "
+               "far-error-operand, far-rest-destructure, keys-odd-args) are executed only in the dedicated families")
     vjanet("fast")
     only = chk.args.only.split(",") if chk.args.only else None
     ctxm = multiprocessing.get_context("fork")
-    total_fail = 0
     reported = {}
     fam_names = [n for n in families.ORDER if (only is None or n in only)]
-    # generate all expression lists in the parent (inherited by forked workers)
-    plan = []
-    for fam in fam_names:
+    # steps: (rank, order, family, level); rank <= 0: inside the quick bound; 1, 2..: beyond it
+    steps = []
+    for k, fam in enumerate(fam_names):
         F = families.FAMILIES[fam]
-        ex = _family_exprs(fam, tier)
-        plan.append((fam, len(ex)))
-    pool = ctxm.Pool(NPROC)
-    try:
-        for fam, n in plan:
-            F = families.FAMILIES[fam]
-            t0 = time.time()
-            if chk.out_of_time(0.92):
-                chk.cap("family %s not started (time budget)" % fam)
+        for lv in F.levels(tier):
+            r = max(0, F.rank(lv))
+            cost = F.count(tier, lv) * len(F.contexts(tier)) if r > 0 else (lv if isinstance(lv, int) else 0)
+            steps.append((r, cost, k, fam, lv))
+    steps.sort(key=lambda s: s[:3])
+    done_bound = {}
+    capped = set()
+    rate = None            # programs per second, measured
+    tot_prog = 0
+    tot_time = 0.0
+    for rank, _, _, fam, lv in steps:
+        F = families.FAMILIES[fam]
+        if fam in capped:
+            continue
+        nctx = len(F.contexts(tier))
+        t0 = time.time()
+        if rank > 0:
+            est_n = F.count(tier, lv) * nctx
+            est = est_n / rate if rate else 0
+            if chk.elapsed() + est * 1.25 > chk.budget * 0.9:
+                chk.cap("%s: size %s not run (estimated %d programs, %.0fs; budget)" % (fam, lv, est_n, est))
+                capped.add(fam)
                 continue
-            nctx = len(F.contexts(tier))
-            per = max(8, min(6000 // nctx, -(-n // (4 * NPROC))))
-            tasks = [(fam, tier, lo, min(n, lo + per)) for lo in range(0, n, per)]
-            failing = []
-            stats = dict(exprs=0, skipped=0, programs=0, steps=0, errors=0, farskip=0)
-            outcomes = set()
+        exprs = F.level_exprs(tier, lv)
+        n = len(exprs)
+        if n == 0:
+            done_bound[fam] = lv
+            continue
+        _CUR.update(fam=fam, tier=tier, exprs=exprs)
+        per = max(4, min(6000 // nctx, -(-n // (4 * NPROC))))
+        tasks = [(lo, min(n, lo + per)) for lo in range(0, n, per)]
+        failing = []
+        stats = dict(exprs=0, skipped=0, programs=0, steps=0, errors=0, farskip=0)
+        outcomes = set()
+        pool = ctxm.Pool(min(NPROC, len(tasks)))
+        try:
             for r in pool.imap_unordered(work, tasks):
                 for k in stats:
                     stats[k] += r[k]
                 outcomes |= r["outcomes"]
                 failing.extend(r["failing"])
             failing.sort(key=lambda e: e[0])
-            # classification of failing expressions
             cl = {}
             if failing:
-                ctasks = [(fam, tier, failing[i:i + 40]) for i in range(0, len(failing), 40)]
+                ctasks = [failing[i:i + 24] for i in range(0, len(failing), 24)]
                 for r in pool.imap_unordered(classify_work, ctasks):
                     for idx, sig in r:
                         cl[idx] = sig
-            nsig = {}
-            for idx, probs in failing:
-                sig = cl.get(idx)
-                if sig is None and F.keep_far:
-                    sig = F.keep_far
-                    sigs = [sig]
-                elif sig is None:
-                    oracle, comp, ctx, detail = probs[0]
-                    ctxset = sorted(set(p[2] for p in probs))
-                    allctx = len(ctxset) == nctx
-                    sig = "%s:%s:%s:%s" % (fam, oracle, comp, "all-contexts" if allctx else ctxset[0])
-                    sigs = [sig]
-                elif "+" in sig:
-                    sigs = sig.split("+")
+        finally:
+            pool.terminate()
+            pool.join()
+        nsig = {}
+        for idx, probs in failing:
+            sig = cl.get(idx)
+            if sig is None and F.keep_far:
+                sigs = [F.keep_far]
+            elif sig is None:
+                oracle, comp, ctx, detail = probs[0]
+                ctxset = sorted(set(p[2] for p in probs))
+                sigs = ["%s:%s:%s:%s" % (fam, oracle, comp, "all-contexts" if len(ctxset) == nctx else ctxset[0])]
+            else:
+                sigs = sig.split("+")
+            for s in sigs:
+                nsig[s] = nsig.get(s, 0) + 1
+                if s not in reported:
+                    reported[s] = True
+                    E = exprs[idx]
+                    chk.violation(sig=s,
+                                  what="family %s, expression %s: %s" % (fam, model.rtext(E), "; ".join(
+                                      "%s/%s in %s: %s" % p for p in probs[:3])),
+                                  replay_text=replay_for(fam, E, probs), replay_cmd="janet <this file>")
                 else:
-                    sigs = [sig]
-                for s in sigs:
-                    nsig[s] = nsig.get(s, 0) + 1
-                    if s not in reported:
-                        reported[s] = True
-                        E = _family_exprs(fam, tier)[idx]
-                        chk.violation(sig=s,
-                                      what="family %s, expression %s: %s" % (fam, model.rtext(E), "; ".join(
-                                          "%s/%s in %s: %s" % p for p in probs[:3])),
-                                      replay_text=replay_for(fam, tier, idx, probs), replay_cmd="janet <this file>")
-                    else:
-                        chk.violation(sig=s, what="")
-            total_fail += len(failing)
-            chk.add(evaluations=stats["programs"], transitions=stats["steps"], states=stats["exprs"])
-            for h in outcomes:
-                chk.outcome((fam, h))
-            chk.part(fam, expressions=stats["exprs"], programs=stats["programs"], contexts=nctx,
-                     excluded_by_model=stats["skipped"], cases_not_run_far_upvalue=stats["farskip"], distinct_outcomes=len(outcomes), raising=stats["errors"],
-                     failing=len(failing), bound=F.bound(tier), wall_s=round(time.time() - t0, 1),
-                     **dict(("sig:" + k, v) for k, v in nsig.items()))
-            ex = _family_exprs(fam, tier)
-            if ex:
-                chk.sample(dict(family=fam, first=model.rtext(ex[0]), middle=model.rtext(ex[len(ex) // 2]),
-                                last=model.rtext(ex[-1])), limit=40)
-            sys.stderr.write("[%s] %d expr x %d ctx = %d programs, %d outcomes, %d raising, %d excluded, %d failing %s (%.1fs)\n" % (
-                fam, stats["exprs"], nctx, stats["programs"], len(outcomes), stats["errors"], stats["skipped"],
-                len(failing), nsig, time.time() - t0))
-            if stats["exprs"] and len(outcomes) < 2:
-                raise HarnessError("family %s is vacuous: %d distinct outcomes" % (fam, len(outcomes)))
-    finally:
-        pool.terminate()
-        pool.join()
-    chk.cov["bound_completed"] = "; ".join("%s<=%s" % (f, families.FAMILIES[f].bound(tier)) for f in fam_names)
+                    chk.violation(sig=s, what="")
+        dt = time.time() - t0
+        tot_prog += stats["programs"]
+        tot_time += dt
+        if tot_prog > 20000:
+            rate = tot_prog / tot_time
+        chk.add(evaluations=stats["programs"], transitions=stats["steps"], states=stats["exprs"])
+        for h in outcomes:
+            chk.outcome((fam, h))
+        chk.part(fam, expressions=stats["exprs"], programs=stats["programs"], contexts=nctx,
+                 excluded_by_model=stats["skipped"], cases_not_run_known_hazard=stats["farskip"],
+                 raising=stats["errors"], failing=len(failing), wall_s=round(dt, 1),
+                 **dict(("sig:" + k, v) for k, v in nsig.items()))
+        chk.part(fam, bound_completed=F.describe(lv))
+        done_bound[fam] = lv
+        chk.sample(dict(family=fam, level=str(lv), first=model.rtext(exprs[0]), middle=model.rtext(exprs[n // 2]),
+                        last=model.rtext(exprs[-1])), limit=200)
+        sys.stderr.write("[%s %s] %d expr x %d ctx = %d programs, %d outcomes, %d raising, %d excluded, %d hazard-skipped, %d failing %s (%.1fs)\n" % (
+            fam, F.describe(lv), stats["exprs"], nctx, stats["programs"], len(outcomes), stats["errors"], stats["skipped"],
+            stats["farskip"], len(failing), nsig, dt))
+        if stats["exprs"] >= 8 and len(outcomes) < 2:
+            raise HarnessError("family %s level %s is vacuous: %d distinct outcomes" % (fam, lv, len(outcomes)))
+    # keep only three samples per family in the evidence (first level, a middle one, the last)
+    by = {}
+    for s in chk.cov["samples"]:
+        by.setdefault(s["family"], []).append(s)
+    chk.cov["samples"] = [v[i] for v in by.values() for i in sorted(set((0, len(v) // 2, len(v) - 1)))]
+    chk.cov["bound_completed"] = "; ".join("%s: %s" % (f, families.FAMILIES[f].describe(done_bound[f]))
+                                           for f in fam_names if f in done_bound)
     chk.finish()
 
 
